@@ -19,7 +19,7 @@ def run(ctx):
     ctx.profile["cross"] = cross
     c_persist.roundtrip_check(ctx, h, label, cross)
     if not ctx.violations and ch.coin(1, 3, "continue-on-loaded"):
-        c_persist.continue_on_loaded(ctx, h.to_json(), label)
+        c_persist.continue_on_loaded(ctx, h.to_json(), label, orig=h)
 
 
 def batch_extra():
